@@ -1440,6 +1440,10 @@ class GeoboxTiles:
         else:
             poly = query
 
+        if poly.is_empty:
+            # nothing to intersect with (e.g. footprints of two rasters that do not overlap)
+            return
+
         if target_crs is not None and poly.crs != target_crs:
             poly = poly.to_crs(target_crs, check_and_fix=True)
 
